@@ -442,7 +442,9 @@ def plan (e : Env) (enc : Bytes → Bytes) : Op → Plan
     withPath (getObjectPath e b k) [] fun p =>
     withPath (metadataPath e enc b k none) [rd p] fun m => .ok [rd p, rd m]
   | .deleteObject b k =>
-    withPath (getObjectPath e b k) [] fun p => .ok [rd p, ⟨.list, .path p⟩, rm p]
+    -- fe75a0e: when nothing exists at the path the bucket directory is probed (`NoSuchBucket`, else success)
+    withPath (getObjectPath e b k) [] fun p =>
+    withPath (getBucketPath e b) [rd p] fun bp => .ok [rd p, rd bp, ⟨.list, .path p⟩, rm p]
   | .deleteObjects b ks =>
     deleteObjectsPlan e b ks [] []
   | .copyObject ap sb sk b k =>
@@ -542,7 +544,9 @@ def covers (e : Env) : Tgt → List Comp → Bool
     | _ => false
 
 /-- the path a successful call must have created / replaced / removed / returned (ties the exact path function
-    to the observation, not only the may-touch set) -/
+    to the observation, not only the may-touch set). For `delete_object` this holds when something existed at the
+    path: since fe75a0e deleting a key that does not exist succeeds without touching anything (the driver knows the
+    harness's layout and applies the rule to the paths that exist in it) -/
 def primary (e : Env) : Op → Option Bytes
   | .createBucket b => (getBucketPath e b).toOption
   | .getObject b k => (getObjectPath e b k).toOption
